@@ -11,7 +11,7 @@ from vf.props.c08 import compare_exact
 NEW_CODES = {
     'GOV': ['STATE', 'G_1', 'PUBLIC'], 'TRE': ['FISC', 'TREASURY', 'T_R'], 'CB': ['BANK', 'CBANK', 'RESERVE'],
     'HH': ['WORKERS', 'H', 'HOUSE_1'], 'CAP': ['OWNERS', 'RENTIER'], 'BUS': ['FIRM', 'CORP', 'B_1'],
-    'TF': ['TAXMAN', 'TX'], 'GOOD': ['WIDGET', 'STUFF', 'GOOD_A', 'G'], 'LAB': ['WORK', 'LABOUR', 'L'],
+    'TF': ['TAXMAN', 'TX'], 'GOOD': ['WIDGET', 'STUFF', 'GOOD_A', 'G'], 'LAB': ['WORK', 'LABOUR', 'L'], 'SRV': ['SERVICE', 'S_2'],
 }
 NEW_COUNTRY = ['ZED', 'K1', 'LAND_A', 'Q', 'NORTH', 'X_Y']
 PREFIXES = ['LAG_SUP_', 'LAG_DEM_', 'SUP_', 'DEM_', 'MU_']
@@ -78,7 +78,7 @@ def name_mapper(base_b, other_b, prefix_only=False):
         owner_country[s.FullCode] = key[0]
     market_short = {}
     for key, s in base_b.sectors.items():
-        if key[1] in ('GOOD', 'LAB'):
+        if key[1] in ('GOOD', 'LAB', 'SRV'):
             market_short.setdefault(key[0], {})[s.Code] = other_b.sectors[key].Code
 
     role_of = {}
@@ -96,7 +96,7 @@ def name_mapper(base_b, other_b, prefix_only=False):
         for p in PREFIXES:
             if local.startswith(p):
                 rem = local[len(p):]
-                if role_of.get(fc) in ('GOOD', 'LAB', 'MON', 'DEP'):
+                if role_of.get(fc) in ('GOOD', 'LAB', 'MON', 'DEP', 'SRV'):
                     if rem == own_code[fc][0]:
                         return nfc + '__' + p + own_code[fc][1]
                     if rem in full:
@@ -145,7 +145,19 @@ class C18(object):
             return {'kind': 'rename', 'spec': spec, 'codes': codes, 'ckey_map': ckey_map}
         if m in (3, 4):
             spec = M.gen_spec(rng, n_zones=rng.choice([2, 2, 3]), ext=False, maxtime=rng.randint(3, 4), cross=False)
-            return {'kind': 'embed', 'spec': spec, 'unused_ext': rng.random() < 0.5}
+            if rng.random() < 0.7:
+                # every economy books an internal transfer of its own (their local variable names coincide)
+                for z in spec['zones']:
+                    keys = [c['key'] for c in z['countries']]
+                    if any(g['src'][0] in keys for g in spec['gifts']):
+                        continue
+                    central = [c['key'] for c in z['countries'] if c['role'] in ('single', 'central')][0]
+                    region = [c['key'] for c in z['countries'] if c['role'] != 'central'][0]
+                    spec['gifts'].append({'src': [central, 'GOVLIKE'], 'dst': [region, 'HH'], 'amount': rng.choice(['1.5', '2.0']),
+                                          'inc_src': rng.random() < 0.5, 'inc_dst': rng.random() < 0.5,
+                                          'id': len(spec['gifts'])})
+            return {'kind': 'embed', 'spec': spec, 'unused_ext': rng.random() < 0.5,
+                    'region_default_currency': rng.random() < 0.6}
         names = ['SIM', 'SIMEX1', 'PC', 'PC']
         k = rng.choice([2, 2, 3])
         return {'kind': 'embed_book', 'builders': [rng.choice(names) for _ in range(k)],
@@ -196,13 +208,14 @@ class C18(object):
         rec = monitors.Recorder()
         spec = case['spec']
         shape = 'embed|' + M.shape_of(spec) + ('|unused_ext' if case['unused_ext'] else '')
-        joint = M.build(spec, unused_ext=case['unused_ext'])
+        rdc = bool(case.get('region_default_currency'))
+        joint = M.build(spec, unused_ext=case['unused_ext'], region_default_currency=rdc)
         zone_keys = [[c['key'] for c in z['countries']] for z in spec['zones']]
         alone = []
         for z, keys in zip(spec['zones'], zone_keys):
             sub = {'maxtime': spec['maxtime'], 'ext': False, 'zones': [z], 'imports': [],
                    'gifts': [g for g in spec['gifts'] if g['src'][0] in keys]}
-            alone.append(M.build(sub))
+            alone.append(M.build(sub, region_default_currency=rdc))
         if any(a.error is not None for a in alone):
             return {'verdict': 'notjudged', 'shape': shape + '|alone_failed'}
         if joint.error is not None:
